@@ -28,8 +28,103 @@ def cap_subst(caps):
     return f
 
 
+def search_shape(ctx, g):
+    """the residual breadth-first search of augment(): queue and `seen` both start from the SOURCE; a vertex w admitted from the popped vertex v is
+    recorded as back[w] = v (child -> parent), marked seen and queued - all three for the same w and v; the neighbours scanned are those of the
+    popped vertex; the path is traced back from the sink along `back` until the source.  The adjacency handed in by min_edge_cut lists every
+    edge in both directions (residual steps run against the flow), and by_first keeps every second component, the first one included"""
+    ctx.clauses.append("augment: search seeded at the source (queue and seen); back[w] = v, seen and queue updated together; trace-back from the sink; adjacency symmetric and complete (T9)")
+    b = ctx.body(M + "augment")
+    ctx.scan([b])
+    nb, source, sink = (("param", k, b.debug.get(k, "")) for k in (2, 3, 4))
+    A = lambda bb, pat: [(bi, [strip(norm(bb.origin(x), g)) for x in t["args"]]) for bi, t in bb.calls(pat)]
+    froms = [a for bi, a in A(b, "From::from")]
+    pops = A(b, "VecDeque::<T, A>::pop_front")
+    bad = None
+    if len(pops) != 1:
+        bad = "not one pop_front"
+    else:
+        q = pops[0][1][0]
+        v = ("field", ("variant", ("call", "std::collections::VecDeque::<T, A>::pop_front", (q,)), "Some"), "0")
+        qd = [strip(norm(d, g)) for dbb, d in b.all_defs_origins(q[1])] if q[0] == "local" else []
+        seed = ("call", "std::convert::From::from", (("agg", "array", (source,)),))
+        pb = A(b, "VecDeque::<T, A>::push_back")
+        ins = A(b, "::insert")
+        idx = [a for bi, a in A(b, "Index::index") if a[0] == nb]
+        if qd != [seed]:
+            bad = "the queue does not start with the source alone: %s" % [show(x, 1)[:40] for x in qd]
+        elif len(pb) != 1 or pb[0][1][0] != q:
+            bad = "not one push_back on the search queue"
+        else:
+            w = pb[0][1][1]
+            wsrc = iter_source(b, w, g)
+            same = [(bi, a) for bi, a in ins if len(a) >= 2 and a[1] == w]
+            seen_ins = [a for bi, a in same if len(a) == 2]
+            back_ins = [a for bi, a in same if len(a) == 3]
+            if not (len(idx) == 1 and idx[0][1] == v and isinstance(wsrc, tuple) and contains(norm(wsrc, g), lambda y: y == ("call", "std::ops::Index::index", (nb, v)) or (is_call(y, "Index::index") and strip(y[2][0]) == nb and strip(y[2][1]) == v))):
+                bad = "the vertices scanned are not the neighbours of the popped vertex"
+            elif len(seen_ins) != 1 or len(back_ins) != 1:
+                bad = "an admitted vertex is not marked seen, recorded in `back` and queued together"
+            elif back_ins[0][2] != v:
+                bad = "back[w] is not the popped vertex it was reached from (child -> parent): back.insert(%s, %s)" % (show(back_ins[0][1], 1)[:20], show(back_ins[0][2], 1)[:20])
+            else:
+                seen = seen_ins[0][0]
+                sd = [strip(norm(d, g)) for dbb, d in b.all_defs_origins(seen[1])] if seen[0] == "local" else []
+                back = back_ins[0][0]
+                if sd != [seed]:
+                    bad = "`seen` does not start with the source alone: %s" % [show(x, 1)[:40] for x in sd]
+                else:
+                    # trace-back
+                    tw = [a for bi, a in A(b, "Index::index") if a[0] == back]
+                    okt = len(tw) == 1 and tw[0][1][0] == "local"
+                    if okt:
+                        wl = tw[0][1]
+                        wd = sorted((strip(norm(d, g)) for dbb, d in b.all_defs_origins(wl[1])), key=repr)
+                        okt = sorted([sink, ("call", "std::ops::Index::index", (back, wl))], key=repr) == [x if x[0] != "call" else (x[0], x[1], tuple(strip(y) for y in x[2])) for x in wd]
+                        ex = [atom_norm(a_, g) for hh, bl in natural_loops(b) for e_, ats in loop_exit_atoms(b, hh, bl, g) for a_ in ats]
+                        okt = okt and any(x[0] == "rel" and x[1] == "Eq" and {strip(x[2]), strip(x[3])} == {wl, source} for x in ex)
+                    if not okt:
+                        bad = "the path is not traced from the sink along back[.] until the source"
+    ctx.ob("T9-search-shape", b.name, "breadth-first search", "ok" if not bad else "violation",
+           "queue = seen = {source}; for w in neighbors[v]: back[w] = v, seen, queued together; trace-back sink -> source" if not bad else bad)
+    me = ctx.body(M + "min_edge_cut")
+    ctx.scan(ctx.facts.with_closures(me.name))
+    bad = None
+    bf = A(me, M + "by_first")
+    if len(bf) != 1 or not is_call(bf[0][1][0], "Iterator::flat_map"):
+        bad = "the adjacency is not by_first(edges.iter().flat_map(..))"
+    else:
+        fm = bf[0][1][0]
+        res = apply_closure(ctx.facts, strip(fm[2][1]), [("agg", "tuple", (("local", -1, "v"), ("local", -2, "w")))], g)
+        res = strip(simplify_proj(res)) if res is not None else None
+        want = {(("local", -1, "v"), ("local", -2, "w")), (("local", -2, "w"), ("local", -1, "v"))}
+        got = {tuple(strip(z) for z in strip(x)[2]) for x in res[2]} if res is not None and res[0] == "agg" and res[1] == "array" and all(strip(x)[0] == "agg" for x in res[2]) else None
+        if got != want:
+            bad = "the adjacency does not list every edge in both directions: %s" % (show(res, 1)[:60] if res else None)
+        elif not contains(fm[2][0], lambda y: y == ("param", 1, me.debug.get(1, ""))):
+            bad = "the adjacency is not built from the given edges"
+    ctx.ob("T9-search-shape", me.name, "adjacency", "ok" if not bad else "violation", "by_first over (v, w) and (w, v) of every edge" if not bad else bad)
+    bf = ctx.body(M + "by_first")
+    ctx.scan(ctx.facts.with_closures(bf.name))
+    bad = None
+    ent, am, oi = A(bf, "::entry"), A(bf, "::and_modify"), A(bf, "::or_insert")
+    if not (len(ent) == 1 and len(am) == 1 and len(oi) == 1):
+        bad = "not entry(v).and_modify(..).or_insert(..)"
+    else:
+        item = strip(ent[0][1][1])
+        first = item if item[0] == "field" and item[2] == "0" else None
+        second = ("field", first[1], "1") if first else None
+        cc = closure_calls(ctx.facts, am[0][1][1], g)
+        okm = any(c[0].endswith("::insert") and strip(c[2][1]) == second for c in cc)
+        okn = oi[0][1][1] == ("call", "std::convert::From::from", (("agg", "array", (second,)),))
+        if first is None or not okm or not okn:
+            bad = "a pair (v, w) does not put w into the set of v in both cases (set exists: insert(w): %s; new set: {w}: %s)" % (okm, okn)
+    ctx.ob("T9-search-shape", bf.name, "grouping", "ok" if not bad else "violation", "entry(v): insert(w) into the existing set, or start the set with {w}" if not bad else bad)
+
+
 def run(ctx):
     g = ctx.facts.getters()
+    search_shape(ctx, g)
     edge_cut(ctx, g)
     augment(ctx, g)
     vertex_cut(ctx, g)
